@@ -196,10 +196,12 @@ def mon_c09(case, out):
     bad = []
     servers, fails, rotate = [], {}, False
     fdsrv = {}
+    live_ids = set()
     for op, evs, line in _iter(case, out):
         t = op.split()
         kv = _kv(t)
         if t[0] == "chan":
+            live_ids = set()
             servers = kv.get("servers", "10.0.0.1").split(",")
             fails = {s: 0 for s in servers}
             rotate = kv.get("rotate", "0") != "0"
@@ -207,7 +209,7 @@ def mon_c09(case, out):
             continue
         first_tx = True
         # the request's own query draws its id first; a probe to a failed server, sent by the same call, draws later
-        own_id = next((a[1] for n, a in evs if n == "rnd" and a and a[0] == "2"), None)
+        own_id = next((a[1] for n, a in evs if n == "rnd" and a and a[0] == "2" and a[1] not in live_ids), None)
         for name, args in evs:
             if name == "tx":
                 if not first_tx:
@@ -243,6 +245,8 @@ def mon_c09(case, out):
                     first_best = [s for s in servers if fails[s] == best][0]
                     if dst != first_best and fails[dst] == best:
                         bad.append(("attempt-not-first-best", "sent to %s, first best is %s" % (dst, first_best)))
+        m = re.search(r"dl=\[([^\]]*)\]", line)
+        live_ids = {item.rsplit(":", 1)[0] for item in m.group(1).split(",")} if m and m.group(1) else set()
     return bad + mon_c09_time(case, out)
 
 
@@ -275,7 +279,9 @@ def mon_c09_time(case, out):
         if t[0] == "adv":
             now += int(kv.get("ms", t[1] if len(t) > 1 and t[1].lstrip("-").isdigit() else 0))
         drawn = [a[1] for n, a in evs if n == "rnd" and len(a) > 1 and a[0] == "2"]
-        own_id = drawn[0] if drawn else None
+        live = {q for q, _ in prev_dl}
+        # the library draws again when an id is taken: the request's own id is the first draw that is free
+        own_id = next((d for d in drawn if d not in live), None)
         quiet = not any(n in ("cb", "react") for n, _ in evs)
         downs = {}
         idsrv0 = dict(idsrv)     # where each query had last been sent before this op
@@ -328,11 +334,13 @@ def mon_c05(case, out):
     good_at = None    # virtual time at which such a reply was last delivered (single-server cookie scenarios only)
     nservers = 1
     reply_tx = {}     # marker -> transmissions (dict) the replies carrying it were addressed to
+    eagain_seen = False
     for op, evs, line in _iter(case, out):
         t = op.split()
         kv = _kv(t)
         if t[0] == "chan":
             txinfo, replies, reply_tx = [], {}, {}
+            eagain_seen = False
             dns0x20 = bool(int(kv.get("flags", "0")) & 1024)
             now, good_marks, good_at = 0, {}, None
             nservers = len(kv.get("servers", "x").split(","))
@@ -341,6 +349,8 @@ def mon_c05(case, out):
             now += int(kv.get("ms", t[1] if len(t) > 1 and t[1].isdigit() else 0))
         ntx_before = len(txinfo)
         for name, args in evs:
+            if name == "send!" and len(args) > 1 and args[1] == "11":
+                eagain_seen = True
             if name == "tx":
                 d = _kv(args)
                 d["_tcp"] = "tcp" in args
@@ -377,7 +387,9 @@ def mon_c05(case, out):
                 # assigned connection: every reply carrying this marker was addressed to a transmission that, at the
                 # moment of delivery, is not the query's latest one and used another connection
                 rts = reply_tx.get(mark)
-                if rts:
+                # a datagram that the socket layer refused with EAGAIN stays buffered on its connection and goes out later,
+                # even after the query has moved on: from then on transmission order no longer tells the assignment
+                if rts and not eagain_seen:
                     def superseded(a):
                         same = [b for b in txinfo[:seen_tx] if b.get("id") == a.get("id") and b.get("q") == a.get("q") and b.get("t") == a.get("t")]
                         return bool(same) and same[-1].get("fd") != a.get("fd")
